@@ -155,6 +155,9 @@ def response_edits(ctx: Ctx):
 
     if IS.zip_self_check() != (1, 0):
         raise AnalysisError("zip-filter lint: the positive control is no longer recognised")
+    ctl = ast.parse("def f(els, vs, cs, n):\n    m = {i['value']: i['id'] for i in els}\n    data = [0] * n\n    for v, c in zip(vs, cs):\n        data[m[v]] = c\n    return data\ndef g(els, vs, cs, n):\n    m = {i['value']: k for k, i in enumerate(els)}\n    data = [0] * n\n    for v, c in zip(vs, cs):\n        data[m[v]] = c\n    return data\n")
+    if len(_ids_used_as_positions([ctl.body[0]])) != 1 or _ids_used_as_positions([ctl.body[1]]):
+        raise AnalysisError("response-edit.positions: the controls are no longer recognised")
     cube = ctx.repo.cls("cube.py", "Cube")
     for meth in ("augment_response", "inflate"):
         if ctx.repo.lookup(cube, meth) is None:
@@ -171,9 +174,46 @@ def response_edits(ctx: Ctx):
         lost = sorted(k for k in stores if k not in loads)
         ctx.ob("response-edit.sources", where, lost or f"stored payload lists {sorted(stores)} are each read in the same edit", "every payload list stored back is derived from its own content", not lost,
                "a filter cube's WEIGHTED counts (measures.count.data) overwritten by the padded unweighted counts: the weighted partition reports unweighted numbers")
+        # the slot a count is written to is a POSITION in the payload: taken from the enumeration of the elements, never an
+        # element's "id" (ids are names - a missing element carries -1 wherever it stands, categories carry arbitrary codes)
+        ids_as_pos = _ids_used_as_positions(fns)
+        ctx.ob("response-edit.positions", where, ids_as_pos[:2] or "no list slot addressed by an element id", "payload slots are addressed by position (enumeration of the elements)", not ids_as_pos,
+               "an element whose id differs from its position (a missing element with id -1 in the middle) shifts every later count onto another row")
         hits = [t for fn in fns for _l, t in IS.zip_filter_mismatch(fn)]
         ctx.ob("response-edit.pairing", where, hits or "no zip of a filtered sequence with a whole payload list", "each count is paired with the element it belongs to", not hits,
                "a missing element that is not the last one shifts every later count onto another row")
+
+
+def _is_id_read(e: ast.AST) -> bool:
+    return (isinstance(e, ast.Subscript) and isinstance(e.slice, ast.Constant) and e.slice.value == "id") or (
+        isinstance(e, ast.Call) and isinstance(e.func, ast.Attribute) and e.func.attr == "get" and e.args and isinstance(e.args[0], ast.Constant) and e.args[0].value == "id")
+
+
+def _ids_used_as_positions(fns) -> list:
+    """Stores `lst[<index>] = ...` into a LIST (a name bound to `[x] * n` / a list display / list(...)) whose index is, or
+    is looked up in a mapping whose values are, an element's "id"."""
+    out = []
+    # mappings {key: item["id"] ...} and lists, by name, over all the functions of the edit (closures see the outer names)
+    id_maps, lists = set(), set()
+    for fn in fns:
+        for n in ast.walk(fn):
+            if isinstance(n, ast.Assign) and len(n.targets) == 1 and isinstance(n.targets[0], ast.Name):
+                v, name = n.value, n.targets[0].id
+                if isinstance(v, ast.DictComp) and _is_id_read(v.value):
+                    id_maps.add(name)
+                if isinstance(v, ast.Dict) and v.values and all(_is_id_read(x) for x in v.values):
+                    id_maps.add(name)
+                if (isinstance(v, ast.BinOp) and isinstance(v.op, ast.Mult) and isinstance(v.left, ast.List)) or isinstance(v, (ast.List, ast.ListComp)) or (isinstance(v, ast.Call) and u(v.func) == "list"):
+                    lists.add(name)
+    for fn in fns:
+        for n in ast.walk(fn):
+            if isinstance(n, ast.Subscript) and isinstance(n.ctx, ast.Store) and isinstance(n.value, ast.Name) and n.value.id in lists:
+                idx = n.slice
+                via_map = isinstance(idx, ast.Subscript) and isinstance(idx.value, ast.Name) and idx.value.id in id_maps
+                via_get = isinstance(idx, ast.Call) and isinstance(idx.func, ast.Attribute) and idx.func.attr == "get" and isinstance(idx.func.value, ast.Name) and idx.func.value.id in id_maps
+                if _is_id_read(idx) or via_map or via_get:
+                    out.append(f"{u(n)[:70]} (slot taken from an element id)")
+    return out
 
 
 def count_sources(ctx: Ctx):
